@@ -91,15 +91,17 @@ func genStrategy(r *Rng) Strategy {
 }
 
 type Task struct {
-	id     int
-	name   string
-	body   func(t *Task)
-	resume chan struct{}
-	slot   int  // transport identity (unique in the process)
-	dyn    bool // goroutine started by the code under test (dyn.go)
-	daemon bool // ... by a package initialiser: survives the runs
-	done   bool
-	prio   int
+	id      int
+	name    string
+	body    func(t *Task)
+	resume  chan struct{}
+	slot    int  // transport identity (unique in the process)
+	spin    bool // parked by the spin protocol (dyn.go)
+	blocked bool // its last park was a forced one: it waits for somebody else
+	dyn     bool // goroutine started by the code under test (dyn.go)
+	daemon  bool // ... by a package initialiser: survives the runs
+	done    bool
+	prio    int
 
 	inUnit    bool
 	unitKind  string
@@ -188,7 +190,7 @@ func newSim(strat Strategy, replay []Seg, totalSteps int64) *Sim {
 }
 
 func (s *Sim) addTask(name string, body func(t *Task)) *Task {
-	t := &Task{id: len(s.tasks), name: name, body: body, resume: make(chan struct{}), slot: newSlot()}
+	t := &Task{id: len(s.tasks), name: name, body: body, resume: make(chan struct{}), slot: newSlot(), spin: spinTransport}
 	s.tasks = append(s.tasks, t)
 	return t
 }
@@ -197,6 +199,7 @@ func (s *Sim) addTask(name string, body func(t *Task)) *Task {
 
 func (s *Sim) hook(site int) {
 	t := s.cur
+	t.blocked = false
 	s.steps++
 	liveTicks++
 	s.spin = 0
@@ -238,6 +241,7 @@ func (s *Sim) yield0() { s.hook(0) }
 
 func (s *Sim) forceSwitch() {
 	t := s.cur
+	t.blocked = true
 	s.steps++
 	s.segs[len(s.segs)-1].N++
 	s.evHash = (s.evHash ^ uint64(t.id+1)<<20 ^ 0xfffff) * fnvPrime
@@ -254,6 +258,12 @@ func (s *Sim) forceSwitch() {
 				s.stopWhy = "deadlock"
 				s.deadlock = true
 			}
+		}
+		if t.daemon {
+			// a goroutine that lives as long as the process is never unwound:
+			// it stays parked until the run is over
+			s.park(t, -1)
+			return
 		}
 		t.inUnit = false
 		panic(abortUnit{s.stopWhy})
@@ -497,6 +507,17 @@ func (s *Sim) cyclicAfter(live []*Task) *Task {
 }
 
 func (s *Sim) run() {
+	s.static = len(s.tasks)
+	// children of earlier ambient calls (e.g. a background goroutine started by
+	// the load of the subject) become tasks of this run; nothing of an earlier
+	// run's bookkeeping comes with them
+	for _, k := range amb.kids {
+		k.id = len(s.tasks)
+		k.prio, k.inUnit, k.unitKind, k.unitSteps, k.unitCap, k.lastSite = 0, false, "", 0, 0, 0
+		s.tasks = append(s.tasks, k)
+		s.probe("adopted_goroutine")
+	}
+	amb.kids = nil
 	if s.strat.Kind == "pct" {
 		perm := s.rng.Perm(len(s.tasks))
 		for i, t := range s.tasks {
@@ -512,9 +533,8 @@ func (s *Sim) run() {
 		}
 		sortInt64(s.changeAt)
 	}
-	s.static = len(s.tasks)
 	if spinTransport {
-		s.doneCh = make(chan struct{}, len(s.tasks)+1)
+		s.doneCh = make(chan struct{}, s.static+1)
 		nStatic := s.static
 		defer func() {
 			// hand-off of everything the tasks wrote (instances loaded by
@@ -524,7 +544,7 @@ func (s *Sim) run() {
 			}
 		}()
 	}
-	for _, t := range s.tasks {
+	for _, t := range s.tasks[:s.static] {
 		t := t
 		go func() {
 			transportAwaitFirst(t)
@@ -539,20 +559,10 @@ func (s *Sim) run() {
 				// the only visible synchronisation of the lane: task end ->
 				// scheduler, one buffered slot per task (no edge between tasks)
 				s.doneCh <- struct{}{}
-				turnVar = -1
-				return
 			}
-			backCh <- struct{}{}
+			transportEnd(t)
 		}()
 	}
-	// children of earlier ambient calls (e.g. a background goroutine started by
-	// the load of the subject) become tasks of this run
-	for _, k := range amb.kids {
-		k.id = len(s.tasks)
-		s.tasks = append(s.tasks, k)
-		s.probe("adopted_goroutine")
-	}
-	amb.kids = nil
 	prevGo, prevFS := xsimrt.GoHook, xsimrt.ForceSwitch
 	curSim = s
 	s.foreign0 = xsimrt.ForeignWaits
@@ -606,7 +616,7 @@ func (s *Sim) staticDone() bool {
 // goDyn is xsimrt.GoHook while the run executes: the new goroutine is one more
 // task (called in task context, holding the baton).
 func (s *Sim) goDyn(body func()) {
-	t := &Task{id: len(s.tasks), name: "dyn", dyn: true, slot: newSlot(), resume: make(chan struct{})}
+	t := &Task{id: len(s.tasks), name: "dyn", dyn: true, slot: newSlot(), resume: make(chan struct{}), spin: spinTransport}
 	if s.strat.Kind == "pct" {
 		t.prio = 1 + s.rng.Intn(len(s.tasks)+1)
 	}
